@@ -28,6 +28,7 @@ type Contract struct {
 	Lets     []NamedExpr
 	Requires []NamedExpr
 	Axioms   []NamedExpr // definitional axioms of spec functions over the heap (assumed, listed)
+	Names    []NamedExpr // 'function' clauses: the result of a pure deterministic function named by a spec function (assumed at call sites, listed)
 	Ensures  []NamedExpr
 	Loops    map[int][]NamedExpr // loop ordinal (1-based, source order of headers) -> invariants
 	LoopMods map[int][]string
@@ -87,7 +88,7 @@ func contractFiles(repo string) ([]string, error) {
 }
 
 var directiveWords = map[string]bool{
-	"property": true, "requires": true, "axiom": true, "ensures": true, "let": true, "loop": true,
+	"property": true, "requires": true, "axiom": true, "function": true, "ensures": true, "let": true, "loop": true,
 	"modifies": true, "pure": true, "nopanic": true, "overflow": true, "inline": true,
 	"trusted": true, "params": true, "fresh": true, "option": true, "sorts": true,
 }
@@ -263,6 +264,12 @@ func (db *ContractDB) directive(c *Contract, body, file string, ln int) error {
 			return err
 		}
 		c.Requires = append(c.Requires, ne)
+	case "function":
+		ne, err := mk(rest, fmt.Sprintf("f%d", len(c.Names)+1))
+		if err != nil {
+			return err
+		}
+		c.Names = append(c.Names, ne)
 	case "axiom":
 		ne, err := mk(rest, fmt.Sprintf("a%d", len(c.Axioms)+1))
 		if err != nil {
